@@ -169,6 +169,11 @@ static void op_revive(actor *a, int ui, int pool, int to)
     actor *u = &G.unit[ui];
     if (!u->created || !u->named || u->freed || !u->joined)
         generr("revive of a unit that was not joined");
+    ASTORE(u->reviving, 1);
+    /* the previous incarnation is over (joined): a cancelled one may never have
+     * started or ended, so re-base the counters */
+    u->starts = u->ends = u->incarnation;
+    u->running = 0;
     u->alt_fn = !u->alt_fn;
     u->joined = 0;
     u->cancelled = 0;
@@ -193,6 +198,7 @@ static void op_revive(actor *a, int ui, int pool, int to)
         rc = ABT_task_revive(G.pool[pool].h, fn, arg, (ABT_task *)&u->h);
     }
     CHECK_RC(rc, "ABT_thread_revive");
+    ASTORE(u->reviving, 0);
     if (u->h != before)
         viol("revive changed the handle of u%d", ui);
     stat_add("revives", 1);
